@@ -652,7 +652,10 @@ def run_e2e(cases, workers=4):
     with E.Workdir() as wd:
         jobs = []
         for i, (template, opt, path, metas, pls, pcs) in enumerate(cases):
-            wd.write(os.path.join(f'c{i}', os.path.normpath(path)), po_text(metas, pls, pcs))
+            full = os.path.join(wd.path, f'c{i}', path)      # not normalised: `a/zz/../b` needs `a/zz` to exist
+            os.makedirs(os.path.dirname(full), exist_ok=True)
+            with open(full, 'w', encoding='utf-8') as fh:
+                fh.write(po_text(metas, pls, pcs))
             args = (['--language=' + opt] if opt is not None else []) + [path]
             jobs.append((args, os.path.join(wd.path, f'c{i}')))
         def one(job):
